@@ -356,6 +356,8 @@ func terminalKind(r result) string {
 	switch {
 	case strings.Contains(r.key, "pvtrue") && strings.Contains(r.key, "gatrue/3"):
 		return "peer-violation->GOAWAY(FLOW_CONTROL_ERROR)"
+	case strings.Contains(r.key, "pvtrue") && strings.Contains(r.key, "cctrue"):
+		return "peer-violation->connection closed"
 	case strings.Contains(r.key, "pvtrue"):
 		return "peer-violation->RST_STREAM(FLOW_CONTROL_ERROR)"
 	case strings.Contains(r.key, "gatrue"):
